@@ -53,6 +53,13 @@ func (c *Ctx) compareUnits(a, b *Unit) (string, map[string]any) {
 		if i == 0 {
 			ta, tb = normHeader(ta), normHeader(tb)
 		}
+		if ta != tb && c.differOnlyInOpaqueHoles(a.Lines[i].Segs, b.Lines[i].Segs) {
+			// the symbolic walk cannot see through a helper one generator calls and the other does not
+			// (a one-sided extraction): the constant text agrees; what the hole prints is decided by R14e
+			// on the concrete corpus
+			c.R.Count("R14a_lines_deferred_to_R14e_(opaque_helper_result)", 1)
+			continue
+		}
 		if ta != tb {
 			return fmt.Sprintf("emitted line %d differs", i+1), map[string]any{
 				"http_line": ta, "client_line": tb,
@@ -71,6 +78,39 @@ func (c *Ctx) compareUnits(a, b *Unit) (string, map[string]any) {
 		return "one file has extra lines", d
 	}
 	return "", nil
+}
+
+// differOnlyInOpaqueHoles: both lines have the same constant text around the same number of holes, and every
+// hole that differs is, on at least one side, the result of a repository helper the walker did not follow.
+func (c *Ctx) differOnlyInOpaqueHoles(a, b []Seg) bool {
+	a, b = foldConsts(VStr{Segs: a}).Segs, foldConsts(VStr{Segs: b}).Segs
+	if len(a) != len(b) {
+		return false
+	}
+	opaque := func(h *Hole) bool {
+		for name := range c.W.OpaqueHelpers {
+			if strings.Contains(h.Key, name+"(") {
+				return true
+			}
+		}
+		return false
+	}
+	for i := range a {
+		ha, hb := a[i].Hole, b[i].Hole
+		if (ha == nil) != (hb == nil) {
+			return false
+		}
+		if ha == nil {
+			if a[i].Const != b[i].Const {
+				return false
+			}
+			continue
+		}
+		if HoleName(ha) != HoleName(hb) && !opaque(ha) && !opaque(hb) {
+			return false
+		}
+	}
+	return true
 }
 
 func checkC14(c *Ctx) {
